@@ -165,6 +165,7 @@ func (e *Exec) callInvoke(fr *Frame, st *State, cc *ssa.CallCommon, recv Val, ar
 		}
 		if m, ok := models[k]; ok {
 			e.sc.used["model:"+k] = true
+			e.countCall(st, k)
 			return m(e, fr, st, args, cc, pos)
 		}
 	}
@@ -218,12 +219,14 @@ func (e *Exec) callKey(fr *Frame, st *State, key string, fn *ssa.Function, bind 
 	}
 	if fc := e.w.Contract[key]; fc != nil {
 		if fc.Flags["inline"] != "" && fn != nil && len(fn.Blocks) > 0 {
+			e.countCall(st, fc.Key)
 			return e.inlineCall(fr, st, fn, bind, args, pos)
 		}
 		return e.applyContract(fr, st, fc, args, sig, pos)
 	}
 	if m, ok := models[key]; ok {
 		e.sc.used["model:"+key] = true
+		e.countCall(st, key)
 		return m(e, fr, st, args, cc, pos)
 	}
 	if fn != nil && len(fn.Blocks) > 0 && fn.Pkg != nil && e.sc.isRepoPkg(fn.Pkg.Pkg) {
@@ -563,6 +566,9 @@ func (e *Exec) applyContract(fr *Frame, st *State, fc *FuncContract, args []Val,
 		c := e.callsCounter(fc.Key)
 		e.hset(st, c, "(+ "+e.hget(st, c)+" 1)")
 	}
+	if e.lastretNamed[fc.Key] && len(resList) > 0 && e.sc.sortOf(resList[0].Typ) == "Int" {
+		e.hset(st, e.heapMap("GS_ret."+sanitize(fc.Key), "Int"), resList[0].T)
+	}
 	e.boxCopyOut(st, args)
 	return res
 }
@@ -574,6 +580,29 @@ func (e *Exec) succFlag(key string) string { return e.pathFlag("succ", key) }
 
 // calledFlag: "the contracted function KEY has been called on this path" (for called("KEY")).
 func (e *Exec) calledFlag(key string) string { return e.pathFlag("called", key) }
+
+// countEffects: the path counters / flags a call of key updates, added to its effect set.
+func (e *Exec) countEffects(key string, eff []string) []string {
+	if e.callsNamed[key] {
+		eff = append(eff, e.callsCounter(key))
+	}
+	if e.calledNamed[key] {
+		eff = append(eff, e.calledFlag(key))
+	}
+	return eff
+}
+
+// countCall: calls("key") / called("key") bookkeeping for calls that are not contract applications
+// (functions executed in place, library models).
+func (e *Exec) countCall(st *State, key string) {
+	if e.callsNamed[key] {
+		c := e.callsCounter(key)
+		e.hset(st, c, "(+ "+e.hget(st, c)+" 1)")
+	}
+	if e.calledNamed[key] {
+		e.hset(st, e.calledFlag(key), "true")
+	}
+}
 
 // callsCounter: "number of calls of the contracted function KEY on this path" (for calls("KEY")).
 func (e *Exec) callsCounter(key string) string {
@@ -883,7 +912,7 @@ func (e *Exec) callEffects(fr *Frame, cc *ssa.CallCommon, depth int) (maps []str
 	}
 	if fc := e.w.Contract[key]; fc != nil {
 		if fc.Flags["inline"] != "" && fn != nil {
-			return nil, false // visited separately via inlineTarget
+			return e.countEffects(fc.Key, nil), false // (the body is visited separately via inlineTarget)
 		}
 		if fc.ModAll {
 			return nil, true
@@ -910,10 +939,10 @@ func (e *Exec) callEffects(fr *Frame, cc *ssa.CallCommon, depth int) (maps []str
 		return maps, false
 	}
 	if eff, ok := modelEffects[key]; ok {
-		return eff(e, cc), false
+		return e.countEffects(key, eff(e, cc)), false
 	}
 	if _, ok := models[key]; ok {
-		return []string{"G_alloc"}, false
+		return e.countEffects(key, []string{"G_alloc"}), false
 	}
 	if fn != nil && len(fn.Blocks) > 0 && fn.Pkg != nil && e.sc.isRepoPkg(fn.Pkg.Pkg) {
 		if fn.Parent() != nil || e.autoInline(fn) {
@@ -929,11 +958,23 @@ func (e *Exec) callEffects(fr *Frame, cc *ssa.CallCommon, depth int) (maps []str
 	}
 	// library default: referents of arguments
 	set := map[string]bool{"G_alloc": true}
+	if e.calledNamed[key] {
+		set[e.calledFlag(key)] = true
+	}
+	if e.succNamed[key] {
+		set[e.succFlag(key)] = true
+	}
 	args := cc.Args
 	if cc.IsInvoke() {
 		args = append([]ssa.Value{cc.Value}, args...)
 	}
 	for _, a := range args {
+		if _, isFA := a.(*ssa.FieldAddr); isFA {
+			// pointer to a field (e.g. a library struct held by value): that field's map
+			for _, m := range e.ptrArgMaps(a) {
+				set[m] = true
+			}
+		}
 		switch t := types.Unalias(a.Type()).Underlying().(type) {
 		case *types.Slice:
 			set[e.elemHeap(t.Elem())] = true
